@@ -1089,6 +1089,18 @@ class FilePackIndex(PackIndex):
             self._contents = contents
             self._size = size if size is not None else len(contents)
 
+    def _check_tables_fit(self, tables_end: int) -> None:
+        """Refuse an index whose fan-out table announces more than the file holds.
+
+        Args:
+            tables_end: Offset at which the tables sized by the object count end
+        """
+        if tables_end > self._size:
+            raise AssertionError(
+                f"pack index announces {len(self)} objects but is only "
+                f"{self._size} bytes long"
+            )
+
     @property
     def path(self) -> str:
         """Return the path to this index file."""
@@ -1324,6 +1336,7 @@ class PackIndex1(FilePackIndex):
         self._fan_out_table = self._read_fan_out_table(0)
         self.hash_size = self.object_format.oid_length
         self._entry_size = 4 + self.hash_size
+        self._check_tables_fit(0x100 * 4 + self._entry_size * len(self))
 
     def _unpack_entry(self, i: int) -> tuple[RawObjectID, int, None]:
         base_offset = (0x100 * 4) + (i * self._entry_size)
@@ -1381,6 +1394,7 @@ class PackIndex2(FilePackIndex):
         self._pack_offset_largetable_offset = self._pack_offset_table_offset + 4 * len(
             self
         )
+        self._check_tables_fit(self._pack_offset_largetable_offset)
 
     def _unpack_entry(self, i: int) -> tuple[RawObjectID, int, int]:
         return (
@@ -1499,6 +1513,7 @@ class PackIndex3(FilePackIndex):
         self._pack_offset_largetable_offset = self._pack_offset_table_offset + 4 * len(
             self
         )
+        self._check_tables_fit(self._pack_offset_largetable_offset)
 
     def _unpack_entry(self, i: int) -> tuple[RawObjectID, int, int]:
         return (
